@@ -173,12 +173,27 @@ def _follow_label(fn, blk, aliases, ty, info, seen, depth):
                 if lhs == (0, ()):
                     info['status'] = 'returned'
                     return
+            elif p is not None and place_key(p) in info.setdefault('wrapped', set()):
+                info['wrapped'].add(lhs)
         elif rv['k'] == 'discr' and place_key(rv['p']) in aliases:
             discr.add(lhs)
+        elif rv['k'] == 'agg' and rv.get('variant') == 'Some' and len(rv.get('ops') or []) == 1:
+            p = op_place(rv['ops'][0])
+            if p is not None and place_key(p) in aliases:
+                info.setdefault('wrapped', set()).add(lhs)  # `Some(result)`: see `transpose` below
     t = b['term']
     k = t['k']
     if k == 'call':
         args = [place_key(p) for p in (op_place(a) for a in t['args']) if p is not None]
+        if re.match(r'^core::option::Option(<.*>)?::transpose$', t.get('callee') or '') and args and args[0] in info.get('wrapped', ()) \
+                and t.get('ret') is not None:
+            # `Some(r).transpose()` is Ok / Err exactly as r is (the `None` of the other arm becomes Ok(None))
+            nd = place_key(t['dest'])
+            if nd == (0, ()):
+                info['status'] = 'returned'
+                return
+            _follow_label(fn, t['ret'], {nd}, fn.ty(t['dest_ty']), info, seen, depth + 1)
+            return
         if any(a in aliases for a in args):
             callee = t.get('callee') or '?'
             if callee == 'core::ops::try_trait::Try::branch' and t.get('ret') is not None:
@@ -1007,6 +1022,35 @@ def _def_upwards(fn, blk, l, depth=0):
     return None
 
 
+OPTION_VIEWS = ('core::option::Option::as_mut', 'core::option::Option::as_ref', 'core::result::Result::as_ref',
+                'core::result::Result::as_mut')
+
+
+def _option_view_of(fn, p, depth=0):
+    """`x.f.as_mut()` / `.as_ref()` has the discriminant of `x.f`: the place whose view the local p holds (through moves), or None"""
+    if p['p'] or depth > 6:
+        return None
+    l = p['l']
+    defs = [s['rv'] for bi in fn.reachable() for s in fn.blocks[bi]['stmts']
+            if s['k'] == 'assign' and not s['lhs']['p'] and s['lhs']['l'] == l]
+    if len(defs) == 1 and defs[0]['k'] == 'use':
+        q = op_place(defs[0]['a'])
+        return _option_view_of(fn, q, depth + 1) if q is not None else None
+    if defs:
+        return None
+    calls = [t for b, t in fn.calls() if not t['dest']['p'] and t['dest']['l'] == l]
+    if len(calls) != 1 or calls[0].get('callee') not in OPTION_VIEWS or not calls[0]['args']:
+        return None
+    a = op_place(calls[0]['args'][0])
+    if a is None or a['p']:
+        return None
+    adefs = [s['rv'] for bi in fn.reachable() for s in fn.blocks[bi]['stmts']
+             if s['k'] == 'assign' and not s['lhs']['p'] and s['lhs']['l'] == a['l']]
+    if len(adefs) == 1 and adefs[0]['k'] == 'ref' and adefs[0]['p']['p']:
+        return adefs[0]['p']
+    return None
+
+
 def switch_source(fn, blk):
     """what does the SwitchInt at blk test?  {'kind': 'place'|'call'|'discr'|'binop'|'unknown', ...}"""
     t = fn.blocks[blk]['term']
@@ -1032,7 +1076,8 @@ def switch_source(fn, blk):
                 l = q['l']
                 continue
             if rv['k'] == 'discr':
-                return {'kind': 'discr', 'place': rv['p'], 'blk': cur}
+                viewed = _option_view_of(fn, rv['p']) if not rv['p']['p'] else None
+                return {'kind': 'discr', 'place': viewed or rv['p'], 'blk': cur}
             if rv['k'] == 'binop':
                 return {'kind': 'binop', 'op': rv['op'], 'a': rv['a'], 'b': rv['b'], 'blk': cur}
             if rv['k'] == 'unop':
